@@ -9,6 +9,7 @@ package mc
 import (
 	"bytes"
 	"fmt"
+	"runtime"
 	"sort"
 	"strings"
 	"testing"
@@ -551,17 +552,50 @@ func TestC10(t *testing.T) {
 		if !mine(cfgIdx) {
 			continue
 		}
-		seen := map[string][]qop{}
+		// a state is remembered by its key and a parent pointer (the path is rebuilt on demand:
+		// storing a path copy per state exhausted memory at thorough bounds)
+		type bnode struct {
+			parent *bnode
+			op     qop
+			depth  int
+		}
+		pathOf := func(n *bnode) []qop {
+			if n == nil {
+				return nil
+			}
+			out := make([]qop, n.depth)
+			for x := n; x != nil; x = x.parent {
+				out[x.depth-1] = x.op
+			}
+			return out
+		}
+		seen := map[string]*bnode{}
 		e0 := newC10Exec(m, startNodes[0])
 		seen[e0.canon()] = nil
-		frontier := [][]qop{nil}
-		for len(frontier) > 0 {
-			var next [][]qop
-			for _, path := range frontier {
+		frontier := []*bnode{nil}
+		stop := false
+		var ms runtime.MemStats
+		for len(frontier) > 0 && !stop {
+			var next []*bnode
+			for _, pn := range frontier {
+				path := pathOf(pn)
 				for _, o := range alpha {
-					ops := append(append([]qop(nil), path...), o)
+					ops := append(append(make([]qop, 0, len(path)+1), path...), o)
 					if rep.Transitions&1023 == 0 {
 						journal("C10 bfs mult=%d %v", m, opsStr(ops))
+						if rep.OverBudget() {
+							stop = true
+						}
+						if rep.Transitions&65535 == 0 {
+							runtime.ReadMemStats(&ms)
+							if ms.HeapAlloc > 6<<30 {
+								stop = true
+								rep.Incomplete(fmt.Sprintf("BFS mult=%d stopped at %d states: memory cap of 6 GiB per worker reached", m, len(seen)))
+							}
+						}
+					}
+					if stop {
+						break
 					}
 					e, i, sig, msg := c10RunSeq(m, startNodes[0], ops)
 					rep.Transitions++
@@ -575,21 +609,26 @@ func TestC10(t *testing.T) {
 					}
 					k := e.canon()
 					if _, ok := seen[k]; !ok {
-						seen[k] = ops
-						next = append(next, ops)
+						d := 1
+						if pn != nil {
+							d = pn.depth + 1
+						}
+						nn := &bnode{parent: pn, op: o, depth: d}
+						seen[k] = nn
+						next = append(next, nn)
 					}
+				}
+				if stop {
+					break
 				}
 			}
 			frontier = next
-			if rep.OverBudget() {
-				break
-			}
 		}
 		states += len(seen)
 		rep.Extra[fmt.Sprintf("bfs_states_mult%d", m)] = len(seen)
-		for k, p := range seen {
-			if len(p) >= 4 {
-				rep.Sample(map[string]any{"state": k, "path": opsStr(p)})
+		for k, n := range seen {
+			if n != nil && n.depth >= 4 {
+				rep.Sample(map[string]any{"state": k, "path": opsStr(pathOf(n))})
 				break
 			}
 		}
